@@ -45,6 +45,9 @@ CHECKS = {
  "C15": ("grid enumeration of expand_message_xmd (DST x message x output lengths incl. oversize DSTs), uniform-bytes map for every length 32..64 over a field alphabet with the SWU exceptional inputs and (u + k*p) encodings, RO/NU suites with slice reuse, against an RFC 9380 reference in the section 6.6.2 form",
          "Bounded exhaustive exploration of hash-to-curve: 900 (DST,msg,out) length triples byte-equal to the reference expand_message_xmd with inputs unmodified; ~12k uniform strings covering every length 32..64, both sgn0 parities, first/second SWU candidate and the exceptional u = +-sqrt(1/11), each as several u + k*p encodings, compared with iso_map(map_to_curve_simple_swu(u)) and (hook) with the intermediate E' point; isogeny poles flagged; RO and NU over 80 (DST,msg) pairs, each called three times from the same slices (purity).",
          "Trusted: crypto/sha256, /verif/ref/h2c.go (RFC vectors reproduced; isogeny constants proved additive). The reference SWU shares no structure with the straight-line code under test.", "DESIGN.md §6 C15"),
+ "C05": ("complete enumeration: all 8160+480 embedded table entries, all 32x256 single-byte scalars through four code paths, all position pairs over a byte alphabet, scalar alphabet; both build configurations (assembly and purego lookups); against a reference table built by affine additions",
+         "Complete enumeration of the finite structure behind fixed-base multiplication: every precomputed entry (hook) equals (j+1)*256^i*G resp. (j+1)*16*256^i*G; every window value in every byte position (zero nibbles/bytes included) through ScalarBaseMult (4-bit constant-time path), DoubleScalarMultBasepointVartime(s,0,G) and scalarBaseMultVartime (8-bit path) and private-key derivation; all 496 position pairs x 36 byte pairs; the scalar alphabet. The whole check runs twice, with the SSE2 and with the pure-Go lookups.",
+         "Trusted: /verif/ref affine arithmetic (table self-checked against double-and-add). s*G for all s < n follows compositionally (independent byte positions + C03 mixed-addition coverage); stated in evidence.", "DESIGN.md §6 C05"),
 }
 
 PENDING_REASON = "check under construction in this round; not yet claimed (see DESIGN.md §6 for the planned bounded-exhaustive check)"
